@@ -2,3 +2,4 @@
 import BevySyncModel.Props.C11
 import BevySyncModel.Props.C12
 import BevySyncModel.Props.C13
+import BevySyncModel.Props.C14
